@@ -10,7 +10,7 @@ structure DState where
   codec : CState := {}
   agent : Stun.Agent := {}
   hm : HState := {}
-  client : Stun.Client := {}
+  client : Stun.Client2 := {}
 
 def step (s : DState) (line : String) : DState × String :=
   let toks := (line.splitOn " ").filter (· ≠ "")
@@ -33,7 +33,7 @@ def step (s : DState) (line : String) : DState × String :=
     match stepUri toks with
     | some out => (s, out)
     | none =>
-    match stepClient s.client toks with
+    match stepClient2 s.client toks with
     | some (c, out) => ({ s with client := c }, out)
     | none => (s, "bad-op")
 
